@@ -841,8 +841,11 @@ func (s *State) extendFunctionEnv(
 		n := len(params) - 1
 		params = params[:n]
 		// Expending the last argument expecting it to be "..", but any other array will do too.
-		if len(args) > 0 && args[len(args)-1].Type() == object.ARRAY {
-			args = append(args[:len(args)-1], object.Elements(args[len(args)-1])...)
+		if len(args) > 0 {
+			// (the array may be a variable of an enclosing scope)
+			if last := object.Value(args[len(args)-1]); last.Type() == object.ARRAY {
+				args = append(args[:len(args)-1], object.Elements(last)...)
+			}
 		}
 		if len(args) >= n {
 			extra = args[n:]
